@@ -361,7 +361,12 @@ def _pool_map(jobs, budget_s):
         deadline = time.time() + budget_s
         while pending and time.time() < deadline:
             for i in [i for i, r in pending.items() if r.ready()]:
-                results.append(pending.pop(i).get())
+                res = pending.pop(i).get()
+                results.append(res)
+                if res.get("failures"):
+                    # a violation is established already: units that are still running (possibly because the
+                    # defect makes the code under test spin) only get a grace period from now on
+                    deadline = min(deadline, time.time() + max(180.0, budget_s / 8))
             time.sleep(0.05)
         for i in pending:
             out = Rec(jobs[i][0], jobs[i][1].get("name", "?")).to_dict()
